@@ -192,7 +192,7 @@ static void do_cod(vf_case *c) {
 		if (len > 1) { VF_TRY(th, g1_read_bin(B, buf, len - 1)); transitions++; if (!th) vf_fail(NULL, "g1_read_bin accepts an encoding truncated by one byte ([%ld]G1, pack %d)", j, pack); } VF_TRY(th, g1_read_bin(B, buf, len + 1)); transitions++; if (!th) vf_fail(NULL, "g1_read_bin accepts an encoding with one byte appended ([%ld]G1, pack %d)", j, pack);
 		g1_free(A); g1_free(B); }
 	else { gt_t A, B; gt_null(A); gt_new(A); gt_null(B); gt_new(B); gt_exp_gen(A, k); size_t len = (size_t)gt_size_bin(A, pack); transitions++; if (len == 0 || len > 8000) { vf_fail(NULL, "gt_size_bin = %zu", len); return; }
-		memset(buf, 0xA5, sizeof buf); VF_TRY(th, gt_write_bin(buf, len, A, pack)); if (th) { vf_fail(NULL, "gt_write_bin(E0^%ld, pack %d) raised with the length gt_size_bin reports", j, pack); return; } for (int i = 0; i < 8; i++) if (buf[len + i] != 0xA5) { vf_fail(NULL, "gt_write_bin wrote beyond the length it was given"); break; }
+		memset(buf, 0xA5, sizeof buf); VF_TRY(th, gt_write_bin(buf, len, A, pack)); if (th) { vf_fail(K_ == 8 && pack ? "L45-fp8-size-bin-announces-unimplemented-compression" : NULL, "gt_write_bin(E0^%ld, pack %d) raised with the length gt_size_bin reports", j, pack); return; } for (int i = 0; i < 8; i++) if (buf[len + i] != 0xA5) { vf_fail(NULL, "gt_write_bin wrote beyond the length it was given"); break; }
 		VF_TRY(th, gt_read_bin(B, buf, len)); transitions++; if (th || gt_cmp(A, B) != RLC_EQ) vf_fail(j == 0 && pack && th ? "L44-compressed-unity-not-decodable" : NULL, "gt_read_bin(gt_write_bin(E0^%ld, pack %d)) is not the element (raised %d)", j, pack, th);
 		VF_TRY(th, gt_read_bin(B, buf, len + 1)); transitions++; if (!th) vf_fail(NULL, "gt_read_bin accepts an encoding with one byte appended (E0^%ld, pack %d)", j, pack);
 		gt_free(A); gt_free(B); }
